@@ -1,6 +1,7 @@
 """C06 — cluster: acknowledged config writes are never lost; all nodes converge."""
 from ..core import Case
 from ..runner import Prop, ModelRun
+from . import cluster_gen
 
 
 def gen_ack(rng, tier):
@@ -40,6 +41,12 @@ class C06(Prop):
         "import) so that nothing can be committed any more. Model = specification of a standalone node (a map that changes "
         "exactly when a write is committed); oracle: what was acknowledged is served, what is served was submitted. "
         "non-trivial = >=2 writes"))]
+    models.append(ModelRun("cluster", cluster_gen.gen_writes, lambda c: any(o.startswith("getall") for o in c.ops),
+                           spec_needs_impl=True, jobs=2, shrinkable=False, rule=(
+        "thorough tier only: real rnacos processes on loopback (3 nodes); publishes/removals addressed to arbitrary nodes "
+        "(routed to the leader), kill -9 / SIGSTOP / restart of one node at a time, leader changes; after 10 s of quiet "
+        "every live node must serve the same content for every key and it must be the last acknowledged write or a later "
+        "submitted one")))
     trusted_base = [
         "async-raft (commit, election, replication, snapshot transfer) is trusted, not verified; the storage contract it "
         "needs is C02-C05/C07",
